@@ -92,6 +92,8 @@ def tokenize(
         if quote_context and quote_context[-1] in ('"', "'", "`", ")", "]", "}", "%"):
             if char in "`([\"'" and quote_context[-1] in "})]":
                 quote_context.append(char.replace("(", ")").replace("[", "]"))
+            elif char == "{" and quote_context[-1] == "}":
+                quote_context.append("}")
             token.update(char, i)
             continue
 
